@@ -41,10 +41,14 @@ Definition variant_rule (r : rule) (s : str) : str :=
 (* ------------------------------------------------------------------ attributes as serde reads them *)
 Definition is_mskip (m : meta) : bool := match m with MSkip => true | _ => false end.
 Definition has_skip (it : item) : bool := existsb (existsb is_mskip) (it_attrs it).
+(* the serialize side of the parenthesised form; serde names what it SERIALISES by it *)
+Fixpoint ser_of (l : list (bool * str)) : option str :=
+  match l with [] => None | (true, v) :: _ => Some v | (false, _) :: r => ser_of r end.
 Fixpoint first_rename (ms : list meta) : option str :=
   match ms with
   | [] => None
   | MRename v :: _ => Some v
+  | MRenameP l :: r => match ser_of l with Some v => Some v | None => first_rename r end
   | _ :: r => first_rename r
   end.
 Definition rename_of (it : item) : option str := first_rename (concat (it_attrs it)).
@@ -52,7 +56,24 @@ Fixpoint first_rename_all (ms : list cmeta) : option str :=
   match ms with
   | [] => None
   | CRenameAll v :: _ => Some v
+  | CRenameAllP l :: r => match ser_of l with Some v => Some v | None => first_rename_all r end
   | _ :: r => first_rename_all r
+  end.
+(* what the tool takes: the first quoted value after the key, whichever side it belongs to *)
+Definition head_val (l : list (bool * str)) : option str := match l with [] => None | p :: _ => Some (snd p) end.
+Fixpoint head_rename (ms : list meta) : option str :=
+  match ms with
+  | [] => None
+  | MRename v :: _ => Some v
+  | MRenameP l :: r => match head_val l with Some v => Some v | None => head_rename r end
+  | _ :: r => head_rename r
+  end.
+Fixpoint head_rename_all (ms : list cmeta) : option str :=
+  match ms with
+  | [] => None
+  | CRenameAll v :: _ => Some v
+  | CRenameAllP l :: r => match head_val l with Some v => Some v | None => head_rename_all r end
+  | _ :: r => head_rename_all r
   end.
 Definition container_rule (c : container) : option rule :=
   match first_rename_all (concat (c_attrs c)) with Some v => rule_of_str v | None => None end.
@@ -87,20 +108,33 @@ Definition ident_char (c : ascii) : bool := ident_start c || is_digit c.
    identifier may carry the raw prefix (item_ok tests the unraw form) *)
 Definition ident_ok (s : str) : bool :=
   match s with [] => false | c :: _ => ident_start c end && forallb ident_char s && existsb (fun c => negb (is_us c)) s.
-Definition count_renames (ms : list meta) : nat := List.length (filter (fun m => match m with MRename _ => true | _ => false end) ms).
+Definition is_rename (m : meta) : bool := match m with MRename _ | MRenameP _ => true | _ => false end.
+Definition count_renames (ms : list meta) : nat := List.length (filter is_rename ms).
+(* one or two entries, at most one per side *)
+Definition sd_ok (l : list (bool * str)) : bool :=
+  match l with
+  | [_] => true
+  | [(a, _); (b, _)] => negb (Bool.eqb a b)
+  | _ => false
+  end.
 Definition other_ok (m : meta) : bool :=
   match m with
   | MOther n _ => ident_ok n && negb (str_eqb n (L "skip")) && negb (str_eqb n (L "rename"))
+  | MRenameP l => sd_ok l
   | _ => true
   end.
 Definition item_ok (it : item) : bool :=
   ident_ok (unraw (it_ident it)) && forallb other_ok (concat (it_attrs it)) && Nat.leb (count_renames (concat (it_attrs it))) 1.
+Definition is_ra (m : cmeta) : bool := match m with CRenameAll _ | CRenameAllP _ => true | _ => false end.
+Definition valid_rule (v : str) : bool := match rule_of_str v with Some _ => true | None => false end.
 Definition cmeta_ok (m : cmeta) : bool :=
   match m with
-  | CRenameAll v => match rule_of_str v with Some _ => true | None => false end
-  | CFlag n => ident_ok n && negb (contains (L "rename_all") n)
+  | CRenameAll v => valid_rule v
+  | CRenameAllP l => sd_ok l && forallb (fun p => valid_rule (snd p)) l
+  | CFlag n => ident_ok n && negb (str_eqb n (L "rename_all"))
+  | CKV n _ => ident_ok n && negb (str_eqb n (L "rename_all"))
   end.
-Definition count_rename_all (ms : list cmeta) : nat := List.length (filter (fun m => match m with CRenameAll _ => true | _ => false end) ms).
+Definition count_rename_all (ms : list cmeta) : nat := List.length (filter is_ra ms).
 Definition in_domain (c : container) : bool :=
   forallb item_ok (c_items c) && forallb cmeta_ok (concat (c_attrs c)) && Nat.leb (count_rename_all (concat (c_attrs c))) 1
   && (is_struct (c_kind c) || negb (Nat.eqb (List.length (c_items c)) 0)).
@@ -142,18 +176,34 @@ Definition kf_skip_beside (c : container) : bool :=
    at the first quote of the source text and never unescapes *)
 Definition needs_escape (v : str) : bool := existsb (fun c => Ascii.eqb c """" || Ascii.eqb c "\") v.
 Definition kf_rename_escape (c : container) : bool :=
-  existsb (fun it => match rename_of it with Some v => needs_escape v | None => false end) (c_items c).
+  existsb (fun it => match head_rename (concat (it_attrs it)) with Some v => needs_escape v | None => false end) (c_items c).
 
 (* C06-5: the letters rename inside another attribute (name or value) of the same item: the
    scanner takes that occurrence for the rename key *)
 Definition kf_rename_text (c : container) : bool :=
-  existsb (fun it => existsb (fun m => match m with MRename _ => false | _ => contains (L "rename") (meta_text m) end)
+  existsb (fun it => existsb (fun m => negb (is_rename m) && contains (L "rename") (meta_text m))
                              (concat (it_attrs it))) (c_items c).
+
+(* C06-8: the parenthesised form whose FIRST entry is not the serialize name (deserialize written first
+   with a different value, or deserialize alone): the tool takes the first quoted value after the key,
+   serde serialises under the serialize entry (the Rust name / container rule when there is none) *)
+Definition opt_str_eqb (a b : option str) : bool :=
+  match a, b with Some x, Some y => str_eqb x y | None, None => true | _, _ => false end.
+Definition sd_bad (l : list (bool * str)) : bool := negb (opt_str_eqb (head_val l) (ser_of l)).
+Definition kf_sd_first (c : container) : bool :=
+  existsb (fun m => match m with CRenameAllP l => sd_bad l | _ => false end) (concat (c_attrs c)) ||
+  existsb (fun it => existsb (fun m => match m with MRenameP l => sd_bad l | _ => false end) (concat (it_attrs it))) (c_items c).
+
+(* C06-9: the letters rename_all inside another container attribute (rename_all_fields = .., or a
+   value): tokens.find takes that occurrence for the rename_all key *)
+Definition cmeta_text (m : cmeta) : str := tok_string (cmeta_tokens m).
+Definition kf_rename_all_text (c : container) : bool :=
+  existsb (fun m => negb (is_ra m) && contains (L "rename_all") (cmeta_text m)) (concat (c_attrs c)).
 
 (* C06-6 (repaired by C06-6-variant-skip): an enum variant carrying skip used to be listed. *)
 
 Definition kf_C06 (c : container) : bool :=
-  kf_skip_text c || kf_skip_beside c || kf_rename_escape c || kf_rename_text c.
+  kf_skip_text c || kf_skip_beside c || kf_rename_escape c || kf_rename_text c || kf_sd_first c || kf_rename_all_text c.
 
 (* C06-7 (configuration): a struct without rename_all whose unrenamed, unskipped field is changed by
    the configured default_field_case (anything but snake_case / lowercase; an unknown setting counts as
